@@ -1247,8 +1247,15 @@ hwloc__groups_by_distances(struct hwloc_topology *topology,
             }
           hwloc_debug_1arg_bitmap("adding Group object with %u objects and cpuset %s\n",
                                   groupsizes[i], group_obj->cpuset);
-          res_obj = hwloc__insert_object_by_cpuset(topology, NULL, group_obj,
-                                                   (kind & HWLOC_DISTANCES_KIND_FROM_USER) ? "distances:fromuser:group" : "distances:group");
+          if (topology->state & HWLOC_TOPOLOGY_STATE_IS_LOADED)
+            /* grouping requested when adding distances after load:
+             * the sets, total memory, group depth, etc. of the new Group must be set up
+             * since the core won't do it later as it does during discovery.
+             */
+            res_obj = hwloc_topology_insert_group_object(topology, group_obj);
+          else
+            res_obj = hwloc__insert_object_by_cpuset(topology, NULL, group_obj,
+                                                     (kind & HWLOC_DISTANCES_KIND_FROM_USER) ? "distances:fromuser:group" : "distances:group");
 	  /* res_obj may be NULL on failure to insert. */
 	  if (!res_obj)
 	    failed++;
